@@ -1,20 +1,325 @@
+// Command abmon runs the monitor-driven check of one property.
+//
+//	abmon -prop C01 -tier quick -seed 1 -verif /verif -scratch /var/tmp/…
+//
+// The parent fans the check's work units out over worker processes (one virtual clock per
+// process; a panic in one batch cannot take the other monitors down), merges what they observed,
+// applies coverage floors and the known-findings file, writes evidence/<id>.json and exits
+// 0 (held on what was observed) / 1 (VIOLATION line) / 2 (inconclusive).
 package main
 
 import (
+	"context"
+	"encoding/json"
+	"flag"
 	"fmt"
-	"verif/world"
+	"os"
+	"os/exec"
+	"path/filepath"
+	"runtime"
+	"sort"
+	"strings"
+	"sync"
+	"time"
+
+	"verif/checks"
+	"verif/sim"
 )
 
+type finding struct {
+	Property  string `json:"property"`
+	Signature string `json:"signature"`
+	Status    string `json:"status"` // open | fixed
+	Commit    string `json:"commit,omitempty"`
+	What      string `json:"what"`
+}
+
+type knownFile struct {
+	Findings []finding `json:"findings"`
+	Fixed    []string  `json:"fixed"`
+}
+
 func main() {
-	cfg := world.Cfg{Modules: []string{"auth", "confirm", "lock", "logout", "oauth2", "otp", "recover", "register", "remember"}, TwoFA: []string{"totp", "sms"}, Mount: "/auth", Providers: []string{"alpha"}}
-	w, err := world.New(cfg, "x")
+	prop := flag.String("prop", "", "property id")
+	tier := flag.String("tier", "quick", "quick|thorough")
+	seed := flag.Int64("seed", 1, "seed")
+	verif := flag.String("verif", "/verif", "verif root")
+	scratch := flag.String("scratch", "", "scratch dir")
+	worker := flag.Int("worker", -1, "worker index")
+	workers := flag.Int("workers", 0, "worker count")
+	out := flag.String("out", "", "worker output")
+	replay := flag.String("replay", "", "replay file")
+	flag.Parse()
+
+	ck := checks.Registry[*prop]
+	if ck == nil {
+		fmt.Printf("INCONCLUSIVE: no check registered for %q\n", *prop)
+		os.Exit(2)
+	}
+	if *scratch == "" {
+		*scratch = os.TempDir()
+	}
+
+	if *replay != "" {
+		os.Exit(doReplay(ck, *replay, *verif, *scratch))
+	}
+	if *worker >= 0 {
+		runWorker(ck, *tier, *seed, *worker, *workers, *out, *verif, *scratch)
+		return
+	}
+	os.Exit(parent(ck, *tier, *seed, *verif, *scratch))
+}
+
+func runWorker(ck *checks.Check, tier string, seed int64, w, n int, out, verif, scratch string) {
+	st := sim.NewStats()
+	ctx := &checks.RunCtx{Seed: seed, Tier: tier, Stats: st, Verif: verif, Scratch: scratch}
+	units := ck.Units(tier)
+	cur := -1
+	defer func() {
+		if p := recover(); p != nil {
+			st.Inconclusive = append(st.Inconclusive, fmt.Sprintf("worker %d panicked in unit %d: %v", w, cur, p))
+			writeJSON(out, st)
+			os.Exit(0)
+		}
+	}()
+	for u := w; u < units; u += n {
+		cur = u
+		ck.Run(ctx, u)
+	}
+	writeJSON(out, st)
+}
+
+func writeJSON(path string, v interface{}) {
+	b, _ := json.Marshal(v)
+	os.WriteFile(path, b, 0o644)
+}
+
+func parent(ck *checks.Check, tier string, seed int64, verif, scratch string) int {
+	start := time.Now()
+	units := ck.Units(tier)
+	n := runtime.NumCPU()
+	if ck.Serial {
+		n = 1
+	}
+	if n > units {
+		n = units
+	}
+	if n < 1 {
+		n = 1
+	}
+	limit := 12 * time.Minute
+	if tier == "thorough" {
+		limit = 90 * time.Minute
+	}
+	ctx, cancel := context.WithTimeout(context.Background(), limit)
+	defer cancel()
+	total := sim.NewStats()
+	var mu sync.Mutex
+	var wg sync.WaitGroup
+	self, _ := os.Executable()
+	for w := 0; w < n; w++ {
+		wg.Add(1)
+		go func(w int) {
+			defer wg.Done()
+			outp := filepath.Join(scratch, fmt.Sprintf("worker-%d.json", w))
+			logp := filepath.Join(scratch, fmt.Sprintf("worker-%d.log", w))
+			cmd := exec.CommandContext(ctx, self, "-prop", ck.ID, "-tier", tier, "-seed", fmt.Sprint(seed), "-worker", fmt.Sprint(w),
+				"-workers", fmt.Sprint(n), "-out", outp, "-verif", verif, "-scratch", scratch)
+			lf, _ := os.Create(logp)
+			cmd.Stdout, cmd.Stderr = lf, lf
+			err := cmd.Run()
+			lf.Close()
+			mu.Lock()
+			defer mu.Unlock()
+			b, rerr := os.ReadFile(outp)
+			if rerr != nil {
+				tail, _ := os.ReadFile(logp)
+				msg := string(tail)
+				if len(msg) > 1500 {
+					msg = msg[len(msg)-1500:]
+				}
+				why := fmt.Sprintf("worker %d produced no result (%v)", w, err)
+				if ctx.Err() != nil {
+					why = fmt.Sprintf("worker %d hit the wall-clock watchdog (%s)", w, limit)
+				}
+				total.Inconclusive = append(total.Inconclusive, why+": "+msg)
+				return
+			}
+			var st sim.Stats
+			if json.Unmarshal(b, &st) != nil {
+				total.Inconclusive = append(total.Inconclusive, fmt.Sprintf("worker %d wrote unreadable output", w))
+				return
+			}
+			if st.Sigs == nil {
+				st.Sigs = map[string]int{}
+			}
+			total.Merge(&st)
+		}(w)
+	}
+	wg.Wait()
+
+	// coverage floors
+	floors := map[string]int{}
+	if ck.Floors != nil {
+		floors = ck.Floors(tier)
+	}
+	var fk []string
+	for k := range floors {
+		fk = append(fk, k)
+	}
+	sort.Strings(fk)
+	for _, k := range fk {
+		if total.Counters[k] < floors[k] {
+			total.Inconclusive = append(total.Inconclusive, fmt.Sprintf("coverage floor not reached: %s = %d < %d", k, total.Counters[k], floors[k]))
+		}
+	}
+	if total.Evaluations == 0 {
+		total.Inconclusive = append(total.Inconclusive, "no evaluations at all")
+	}
+
+	// known findings
+	var kf knownFile
+	if b, err := os.ReadFile(filepath.Join(verif, "known_findings.json")); err == nil {
+		json.Unmarshal(b, &kf)
+	}
+	open := map[string]finding{}
+	for _, f := range kf.Findings {
+		if f.Status == "open" && f.Property == ck.ID {
+			open[f.Signature] = f
+		}
+	}
+	knownSeen := map[string]int{}
+	newBySig := map[string]sim.VioRec{}
+	var newOrder []string
+	for _, v := range total.Violations {
+		if v.Prop != ck.ID {
+			continue
+		}
+		if _, ok := open[v.Sig]; ok {
+			knownSeen[v.Sig]++
+			continue
+		}
+		if _, ok := newBySig[v.Sig]; !ok {
+			newBySig[v.Sig] = v
+			newOrder = append(newOrder, v.Sig)
+		}
+	}
+	sort.Strings(newOrder)
+	var ks []string
+	for k := range knownSeen {
+		ks = append(ks, k)
+	}
+	sort.Strings(ks)
+	for _, k := range ks {
+		fmt.Printf("KNOWN-FINDING: property=%s %s (signature %s, seen %d times this run)\n", ck.ID, open[k].What, k, knownSeen[k])
+	}
+	nviol := 0
+	for _, sig := range newOrder {
+		v := newBySig[sig]
+		nviol++
+		rp := filepath.Join(verif, "replays", fmt.Sprintf("%s-seed%d-unit%d.json", ck.ID, seed, v.Index))
+		writeJSONIndent(rp, map[string]interface{}{"property": ck.ID, "tier": tier, "seed": seed, "unit": v.Index, "signature": v.Sig,
+			"message": v.Msg, "step": v.Step, "config": json.RawMessage(orNull(v.Cfg)), "history": v.History, "detail": v.Detail})
+		fmt.Printf("VIOLATION property=%s replay=%s\n", ck.ID, rp)
+		fmt.Printf("  signature: %s\n  %s\n", v.Sig, v.Msg)
+		h := v.History
+		if len(h) > 12 {
+			h = h[len(h)-12:]
+		}
+		for _, l := range h {
+			fmt.Printf("    %s\n", l)
+		}
+	}
+
+	wall := time.Since(start).Seconds()
+	cov := map[string]interface{}{
+		"evaluations":         total.Evaluations,
+		"distinct_nontrivial": len(total.Sigs),
+		"rule":                ck.Rule,
+		"samples":             orEmpty(total.Samples),
+		"units":               units,
+		"histories":           total.Histories,
+		"counters":            total.Counters,
+		"floors":              floors,
+		"top_signatures":      total.TopSigs(25),
+		"known_findings_seen": knownSeen,
+		"workers":             n,
+	}
+	if ck.Exhaustive {
+		cov["exhaustive"] = true
+	}
+	for k, v := range total.Notes {
+		cov["note_"+k] = v
+	}
+	if len(total.Inconclusive) > 0 {
+		cov["inconclusive"] = total.Inconclusive
+	}
+	ev := map[string]interface{}{
+		"property_id": ck.ID, "tier": tier, "seed": seed, "level": ck.Level, "coverage": cov,
+		"assumptions": ck.Assumptions, "wall_s": wall, "violations": nviol,
+	}
+	writeJSONIndent(filepath.Join(verif, "evidence", ck.ID+".json"), ev)
+
+	fmt.Printf("%s %s seed=%d: %d evaluations, %d distinct signatures, %d new violations, %d known findings, %.1fs\n",
+		ck.ID, tier, seed, total.Evaluations, len(total.Sigs), nviol, len(knownSeen), wall)
+	if nviol > 0 {
+		return 1
+	}
+	if len(total.Inconclusive) > 0 {
+		for _, m := range total.Inconclusive {
+			fmt.Printf("INCONCLUSIVE: %s\n", strings.TrimSpace(m))
+		}
+		return 2
+	}
+	return 0
+}
+
+func orNull(s string) string {
+	if s == "" {
+		return "null"
+	}
+	return s
+}
+
+func orEmpty(s []interface{}) []interface{} {
+	if s == nil {
+		return []interface{}{"(no sample recorded)"}
+	}
+	return s
+}
+
+func writeJSONIndent(path string, v interface{}) {
+	b, _ := json.MarshalIndent(v, "", " ")
+	os.WriteFile(path, b, 0o644)
+}
+
+func doReplay(ck *checks.Check, file, verif, scratch string) int {
+	b, err := os.ReadFile(file)
 	if err != nil {
-		panic(err)
+		fmt.Println("INCONCLUSIVE: cannot read replay file:", err)
+		return 2
 	}
-	b := world.NewBrowser(0)
-	r := w.Do(b, world.Req{Method: "POST", Path: "/auth/register", Form: map[string]string{"email": "a@b.cc", "password": "Abcdef1!", "confirm_password": "Abcdef1!"}})
-	fmt.Println(r.Status, r.Location, r.RespBody, r.HandlerErr, r.Panic, r.SessOut, r.Calls, r.Diff(), len(r.Mails), r.Logs)
-	if len(r.Mails) > 0 {
-		fmt.Println(r.Mails[0].Email.TextBody)
+	var rp struct {
+		Tier string `json:"tier"`
+		Seed int64  `json:"seed"`
+		Unit int    `json:"unit"`
 	}
+	if json.Unmarshal(b, &rp) != nil {
+		fmt.Println("INCONCLUSIVE: unreadable replay file")
+		return 2
+	}
+	st := sim.NewStats()
+	ck.Run(&checks.RunCtx{Seed: rp.Seed, Tier: rp.Tier, Stats: st, Verif: verif, Scratch: scratch, Verbose: true}, rp.Unit)
+	for _, v := range st.Violations {
+		fmt.Printf("VIOLATION property=%s replay=%s\n  signature: %s\n  %s\n", ck.ID, file, v.Sig, v.Msg)
+		for _, l := range v.History {
+			fmt.Printf("    %s\n", l)
+		}
+		fmt.Printf("  detail: %s\n", v.Detail)
+	}
+	if len(st.Violations) > 0 {
+		return 1
+	}
+	fmt.Printf("replay of %s unit %d: no violation (%d evaluations)\n", ck.ID, rp.Unit, st.Evaluations)
+	return 0
 }
